@@ -162,6 +162,9 @@ pub enum Motif {
     /// `rich`: additionally all four castling rights (king on c, rooks on a and e) and an
     /// en-passant file, so that with clocks at 100 / >= 10000 the record has its maximal length.
     Dense { phases: u8, kinds: [u8; 32], drop: u8, rich: bool },
+    /// The mover owns 8..12 pieces of ONE kind (more than any game could give it) and pawns about
+    /// to promote; the enemy king stands on a square none of them attacks, if there is one.
+    PromoGlut { black: bool, kind_sel: u8, count: u8, squares: [u8; 12], pawn_files: Vec<u8>, enemy_k: u8 },
     /// King near an edge with a few enemy pieces close by: mates and stalemates.
     Net {
         black: bool,
@@ -510,6 +513,35 @@ fn apply_motif(b: &mut Builder, m: &Motif, h: &mut Hints) {
             }
             for &f in pawns {
                 b.put(f as i32 % 8, r7, Kind::P, us);
+            }
+        }
+        Motif::PromoGlut { black, kind_sel, count, squares, pawn_files, enemy_k } => {
+            let us = side_of(*black);
+            let them = us.other();
+            h.stm = Some(us);
+            let r7 = if us == Side::W { 6 } else { 1 };
+            let kind = [Kind::N, Kind::B, Kind::R, Kind::Q][*kind_sel as usize % 4];
+            for &f in pawn_files.iter().take(3) {
+                b.put(f as i32 % 8, r7, Kind::P, us);
+            }
+            let n = 8 + *count as usize % 5;
+            let mut placed = 0usize;
+            for &s in squares.iter() {
+                if placed >= n {
+                    break;
+                }
+                // keep off the two last ranks of the mover so that the pawns can still promote
+                let (f, r) = (file_of(s % 64), 1 + rank_of(s % 64) % 5);
+                let r = if us == Side::W { r } else { 7 - r };
+                if b.put(f, r, kind, us) {
+                    placed += 1;
+                }
+            }
+            let view = Pos { board: b.st.board, stm: us, rights: [[None; 2]; 2], ep: None, hm: 0, fm: 1 };
+            let safe: Vec<Sq> = (0..64u8).filter(|&s| b.st.board[s as usize].is_none() && view.attackers(s, us).is_empty()).collect();
+            if !safe.is_empty() {
+                let s = safe[*enemy_k as usize % safe.len()];
+                b.put(file_of(s), rank_of(s), Kind::K, them);
             }
         }
         Motif::PreEp { black, file, dir, dk, ds, queen, capturers } => {
@@ -979,6 +1011,8 @@ fn arb_motif() -> impl Strategy<Value = Motif> {
             .prop_map(|(black, long, cover_queen, cover_dist, drop)| Motif::CastleOnly { black, long, cover_queen, cover_dist, drop }),
         1 => (any::<bool>(), any::<bool>(), prop_oneof![2 => Just(0u8), 1 => 1u8..4])
             .prop_map(|(black, long, variant)| Motif::CastleMate { black, long, variant }),
+        1 => (any::<bool>(), 0u8..4, 0u8..5, any::<[u8; 12]>(), vec(0u8..8, 1..4), any::<u8>())
+            .prop_map(|(black, kind_sel, count, squares, pawn_files, enemy_k)| Motif::PromoGlut { black, kind_sel, count, squares, pawn_files, enemy_k }),
         1 => (any::<u8>(), any::<[u8; 32]>(), prop_oneof![3 => Just(0u8), 1 => 1u8..3], any::<bool>())
             .prop_map(|(phases, kinds, drop, rich)| Motif::Dense { phases, kinds, drop, rich }),
         1 => (any::<bool>(), 0u8..4, 0u8..5, 0u8..5, 0u8..3, any::<bool>())
